@@ -330,6 +330,8 @@ let agent_suite () =
                emit (Printf.sprintf "S %d 0 C08 lt-integrity-key" i)
              end;
              if not (mon_C13_ltcred cc st.ma_lt mo o) then emit (Printf.sprintf "S %d 0 C13 lt-credential-attributes" i);
+             (* C17: bytes that are not a STUN message are rejected and change nothing, not even a marker *)
+             if not (mon_C17_undecodable st.ma_core mo o) then emit (Printf.sprintf "S %d 0 C17 undecodable-not-rejected" i);
              (* C07: a response without acceptable integrity fails the request (reliable) / marks it (unreliable) *)
              if not (mon_C07_reject cc st.ma_core st.ma_st mo o) then emit (Printf.sprintf "S %d 0 C07 st-bad-response-not-rejected" i);
              (* C08: a plain 401 / 438 challenge for an outstanding request is answered by the retry notification *)
